@@ -24,14 +24,16 @@ RULE = (
     "steady state and one-step propagator exp(-dt/tau) for every dt of the alphabet, observed (a) through the real *_gate "
     "functions and (b) black-box through the real update_states from states 0 and 1, against the published equations; "
     "currents for every combination of gate-state alphabet values x conductance/reversal/shift valuations; default tables; "
-    "change_name for every prefix kind and every ordered pair of prefixes (keys, and bitwise identical dynamics/currents "
-    "under the key map); distinct = (mechanism, gate, parameter setting, route, observable, regime bucket) resp. "
+    "change_name for every prefix kind and every ordered pair of prefixes, on the default instance and on an instance whose "
+    "stored parameter/state values were all changed to distinct non-default values (keys, values carried unchanged to "
+    "the mapped keys, and bitwise identical dynamics/currents under the key map); distinct = (mechanism, gate, parameter setting, route, observable, regime bucket) resp. "
     "(mechanism, valuation, state combination) resp. (mechanism, prefix chain)"
 )
 RATE_GATES = [(m, g) for m in refkin.CHANNELS + ["IonotropicSynapse"] for g in refkin.MECHS[m]["gates"]]
 DEFAULT_MECHS = ["HH", "Leak", "Na", "K", "Km", "CaL", "CaT", "IonotropicSynapse"]
 CURRENT_MECHS = ["HH", "Leak", "Na", "K", "Km", "CaL", "CaT", "IonotropicSynapse"]
-PREFIX_KINDS = ["single_letter", "alnum", "underscore", "own_name", "shared_key_prefix", "constructor_name", "chain"]
+PREFIX_KINDS = ["single_letter", "alnum", "underscore", "own_name", "shared_key_prefix", "constructor_name", "chain",
+                "customised_values"]
 REQUIRED_COVER = (
     [f"rate:{m}.{g}" for m, g in RATE_GATES]
     + [f"defaults:{m}" for m in DEFAULT_MECHS]
@@ -328,15 +330,45 @@ def _tables(inst):
             dict(inst.synapse_states if syn else inst.channel_states))
 
 
-def _dyn(inst, mech, prefix, v, p):
-    """Outputs of the real update_states (two dts) and compute_current on the alphabet, keyed by LOCAL names."""
+def customise(inst, mech):
+    """Give EVERY parameter and state stored in the instance a distinct non-default value (also the shared unprefixed
+    ones: vt, eNa, eK, eCa), as a user would (`hh.channel_params["HH_gNa"] = 0.2`).  Returns (params, states) keyed by
+    LOCAL names.  Values keep their sign/positivity (conductances, taumax, k_minus, slope stay positive)."""
+    syn = kl.isinstance_syn(inst)
+    ptab = inst.synapse_params if syn else inst.channel_params
+    stab = inst.synapse_states if syn else inst.channel_states
+    name = inst._name
+    pvals, svals = {}, {}
+    for i, (n, shared, d) in enumerate(refkin.MECHS[mech]["params"]):
+        val = d * (1.5 + 0.25 * i) if (n.startswith("g") or n in ("taumax", "k_minus", "slope")) else d + 1.5 + 0.25 * i
+        key = n if shared else f"{name}_{n}"
+        ptab[key] = val
+        pvals[n] = val
+    for j, g in enumerate(refkin.MECHS[mech]["gates"]):
+        val = 0.3125 + 0.0625 * j
+        stab[f"{name}_{g}"] = val
+        svals[g] = val
+    return pvals, svals
+
+
+def _dyn(inst, mech, prefix, v, p, stored=False):
+    """Outputs of the real update_states (two dts) and compute_current on the alphabet, keyed by LOCAL names.
+    stored=True: parameter values are the ones stored in the instance's own table (as `insert` would take them), and the
+    stored initial state values are appended to the state alphabet."""
     gates = refkin.MECHS[mech]["gates"]
     skeys = refkin.state_keys(mech, prefix)
     N = len(v)
-    S = len(kl.STATE_ALPHABET)
+    alphabet = list(kl.STATE_ALPHABET)
+    if stored:
+        ptab, stab = _tables(inst)
+        alphabet += [float(x) for x in stab.values()]
+    S = len(alphabet)
     vv = np.tile(v, S)
-    xx = np.repeat(np.asarray(kl.STATE_ALPHABET), N)
-    params = kl.full_params(mech, prefix, p, N * S, np.float64)
+    xx = np.repeat(np.asarray(alphabet, dtype=np.float64), N)
+    if stored:
+        params = {k: np.full(N * S, float(val), dtype=np.float64) for k, val in ptab.items()}
+    else:
+        params = kl.full_params(mech, prefix, p, N * S, np.float64)
     res = {}
     for dt in (0.025, 1e3):
         got = kl.run_update(inst, {k: xx for k in skeys.values()}, dt, vv, params, jit=False)
@@ -350,9 +382,29 @@ def _dyn(inst, mech, prefix, v, p):
     return res
 
 
-def check_rename(mech, chain, v, out, kinds=()):
-    """chain: list of names applied with change_name in order (first element may be ('ctor', name))."""
+_BASE_DYN = {}
+
+
+def _base_dyn(mech, v, p, custom):
+    """Outputs of the UN-renamed (default or customised) instance; cached per worker."""
+    key = (mech, custom, len(v), float(v[0]), float(v[-1]))
+    if key not in _BASE_DYN:
+        base = kl.instance(mech, fresh=True)
+        if custom:
+            customise(base, mech)
+        _BASE_DYN[key] = (_dyn(base, mech, base._name, v, p, stored=custom), getattr(base, "current_name", None))
+    return _BASE_DYN[key]
+
+
+def check_rename(mech, chain, v, out, kinds=(), custom=False):
+    """chain: list of names applied with change_name in order (first element may be ('ctor', name)).
+    custom=True: all values stored in the instance are first changed to distinct non-default values; the chain must carry
+    every value, unchanged, to the mapped key."""
     cls_inst = None
+    extra = {"instance": "customised"} if custom else {}
+    cvals = None
+    _viol = (lambda sig, wit, msg: globals()["_viol"](dict(sig, **extra), dict(wit, custom=True), "[customised] " + msg)) \
+        if custom else globals()["_viol"]
     try:
         if chain and isinstance(chain[0], (list, tuple)):
             cls_inst = kl.instance(mech, chain[0][1], fresh=True)
@@ -362,6 +414,8 @@ def check_rename(mech, chain, v, out, kinds=()):
             cls_inst = kl.instance(mech, fresh=True)
             names = list(chain)
             todo = list(chain)
+        if custom:
+            cvals = customise(cls_inst, mech)
         for nm in todo:
             r = cls_inst.change_name(nm)
             if r is not cls_inst:
@@ -379,6 +433,25 @@ def check_rename(mech, chain, v, out, kinds=()):
     want_p = {refkin.key_of(mech, final, n): d for n, _, d in refkin.MECHS[mech]["params"]}
     want_s = set(refkin.state_keys(mech, final).values())
     wit = {"kind": "rename", "mech": mech, "chain": chain}
+    if custom:
+        # every stored value must sit, unchanged (exact), under the mapped key
+        want_pv = {refkin.key_of(mech, final, n): val for n, val in cvals[0].items()}
+        want_sv = {f"{final}_{g}": val for g, val in cvals[1].items()}
+        lost_p = {k: (params.get(k), val) for k, val in want_pv.items() if not (k in params and params[k] == val)}
+        lost_s = {k: (states.get(k), val) for k, val in want_sv.items() if not (k in states and states[k] == val)}
+        if lost_p:
+            shared = {n for n, sh, _ in refkin.MECHS[mech]["params"] if sh}
+            what = "shared_param_values" if set(lost_p) <= shared else "param_values"
+            out["violations"].append(_viol({"rule": "rename_values", "mech": mech, "what": what}, wit,
+                                           f"{mech} chain {chain}: stored parameter values changed by renaming "
+                                           f"(key: (now, before)): {lost_p}"))
+        if lost_s:
+            out["violations"].append(_viol({"rule": "rename_values", "mech": mech, "what": "state_values"}, wit,
+                                           f"{mech} chain {chain}: stored initial state values changed by renaming "
+                                           f"(key: (now, before)): {lost_s}"))
+        want_p = want_pv  # the key rule below then also compares the key set/order (values already reported above)
+        if set(params) == set(want_p) and list(params) == list(want_p):
+            params = want_p
     if cls_inst._name != final or cls_inst.name != final:
         out["violations"].append(_viol({"rule": "rename_name", "mech": mech}, wit,
                                        f"{mech} chain {chain}: name is {cls_inst._name!r}, expected {final!r}"))
@@ -392,10 +465,9 @@ def check_rename(mech, chain, v, out, kinds=()):
                                        f"{mech} chain {chain}: states {sorted(states)}, expected {sorted(want_s)}"))
     # dynamics and currents identical under the key map (bitwise, NaN == NaN)
     p = refkin.psets(mech)[-1]
-    base = kl.instance(mech)
     try:
-        a = _dyn(base, mech, base._name, v, p)
-        b = _dyn(cls_inst, mech, final, v, p)
+        a, base_cur = _base_dyn(mech, np.asarray(v, dtype=np.float64), p, custom)
+        b = _dyn(cls_inst, mech, final, v, p, stored=custom)
     except Exception as e:
         out["violations"].append(_viol({"rule": "rename_dynamics", "mech": mech, "exc": type(e).__name__}, wit,
                                        f"{mech} chain {chain}: kernels with renamed keys raised {type(e).__name__}: {e}"[:300]))
@@ -410,7 +482,21 @@ def check_rename(mech, chain, v, out, kinds=()):
         if k[0] == "keys":
             out["violations"].append(_viol({"rule": "rename_dynamics", "mech": mech, "what": "keys"}, wit,
                                            f"{mech} chain {chain}: update_states returned {b[k]}"))
-    out["digests"].append(digest([mech, "rename", chain]))
+    if custom:
+        # current_name follows the same rule as for the default instance put through the same chain
+        try:
+            ref_inst = kl.instance(mech, chain[0][1], fresh=True) if chain and isinstance(chain[0], (list, tuple)) \
+                else kl.instance(mech, fresh=True)
+            for nm in (chain[1:] if chain and isinstance(chain[0], (list, tuple)) else chain):
+                ref_inst.change_name(nm)
+            if getattr(ref_inst, "current_name", None) != getattr(cls_inst, "current_name", None):
+                out["violations"].append(_viol({"rule": "rename_current_name", "mech": mech}, wit,
+                                               f"{mech} chain {chain}: current_name {getattr(cls_inst, 'current_name', None)!r} "
+                                               f"differs from the default instance's {getattr(ref_inst, 'current_name', None)!r}"))
+        except Exception:
+            pass
+        out["cover"].append("rename:customised_values")
+    out["digests"].append(digest([mech, "rename", chain, custom]))
     for kd in kinds:
         out["cover"].append(f"rename:{kd}")
 
@@ -449,6 +535,7 @@ def work(item):
         v = rename_voltages(mech, item["tier"])
         for chain, kinds in rename_chains(mech):
             check_rename(mech, chain, v, out, kinds)
+            check_rename(mech, chain, v, out, kinds, custom=True)
         out["sample"] = {"kind": k, "mech": mech, "chains": len(rename_chains(mech))}
     out["cover"] = sorted(set(out["cover"]))
     out["digests"] = sorted(set(out["digests"]))
@@ -478,5 +565,5 @@ def replay(w):
     elif k == "defaults":
         check_defaults(w["mech"], out)
     elif k == "rename":
-        check_rename(w["mech"], w["chain"], rename_voltages(w["mech"], "quick"), out)
+        check_rename(w["mech"], w["chain"], rename_voltages(w["mech"], "quick"), out, custom=bool(w.get("custom")))
     return out["violations"]
